@@ -1,259 +1,26 @@
 package main
 
 import (
-	"fmt"
-	"net"
 	"strings"
-	"time"
 
-	"github.com/enbility/ship-go/mdns"
-	"github.com/enbility/ship-go/zzverif/fakeavahi"
 	"github.com/enbility/ship-go/zzverif/hx"
+	"github.com/enbility/ship-go/zzverif/mdnsscen"
 	"github.com/enbility/ship-go/zzverif/simrt"
 )
-
-// C19: mDNS via Avahi survives daemon restarts without stale or lost announcements.
-
-var c19Events = []string{"down", "up", "tick", "ann1", "ann2", "unann", "browse", "shutdown"}
-
-type c19world struct {
-	d        *fakeavahi.Daemon
-	p        *mdns.AvahiProvider
-	resolved []string
-	want     string // "" = nothing announced, otherwise the txt tag of the latest Announce
-	shut     bool
-	shutReturned bool
-	setupsAtShutdown int
-	browsersAtShutdown, groupsAtShutdown int
-	nBrowse  int
-}
-
-func txtOf(tag string) []string { return []string{"txtvers=1", "id=me", "path=/ship/", "ski=abcd", "register=" + tag} }
-
-func (w *c19world) apply(ev string) {
-	switch ev {
-	case "down":
-		w.d.Disconnect()
-	case "up":
-		w.d.Up()
-	case "tick":
-		simrt.RunFor(1100 * time.Millisecond)
-	case "ann1", "ann2":
-		tag := "false"
-		if ev == "ann2" {
-			tag = "true"
-		}
-		w.want = tag
-		_ = w.p.Announce("svc", 4711, txtOf(tag))
-	case "unann":
-		w.want = ""
-		w.p.Unannounce()
-	case "browse":
-		w.nBrowse++
-		name := fmt.Sprintf("peer%d", w.nBrowse)
-		svc := fakeavahi.Service{Interface: 1, Protocol: 0, Name: name, Type: "_ship._tcp", Domain: "local", Host: name + ".local", Address: "10.0.0.7", Port: 4712,
-			Txt: [][]byte{[]byte("txtvers=1"), []byte("id=" + name), []byte("path=/ship/"), []byte("ski=" + name), []byte("register=false")}}
-		w.d.Resolvable = append(w.d.Resolvable, svc)
-		w.d.Push(true, svc)
-	case "shutdown":
-		w.shut = true
-		done := false
-		simrt.Go("user-shutdown", func() { w.p.Shutdown(); done = true })
-		simrt.Quiesce()
-		if !done {
-			simrt.Fail("C19|shutdown-blocked", "Shutdown did not return (deadlock)")
-		} else if !w.shutReturned {
-			w.shutReturned = true
-			w.setupsAtShutdown = w.d.Setups
-			w.browsersAtShutdown = len(w.d.Browsers)
-			w.groupsAtShutdown = len(w.d.Groups)
-		}
-	}
-	simrt.Quiesce()
-}
-
-func (w *c19world) listeners() int {
-	n := 0
-	for _, t := range simrt.Threads() {
-		if strings.Contains(t.Name, "chanListener") && !t.Done {
-			n++
-		}
-	}
-	return n
-}
-
-func (w *c19world) invariants(hist []string) {
-	last := ""
-	if len(hist) > 0 {
-		last = hist[len(hist)-1]
-	}
-	if w.shutReturned {
-		if w.d.Setups != w.setupsAtShutdown || len(w.d.Browsers) != w.browsersAtShutdown || len(w.d.Groups) != w.groupsAtShutdown {
-			simrt.Fail("C19|restarted-after-shutdown", "after Shutdown returned the provider connected / browsed / announced again (setups %d->%d, browsers %d->%d, entry groups %d->%d; history %v)",
-				w.setupsAtShutdown, w.d.Setups, w.browsersAtShutdown, len(w.d.Browsers), w.groupsAtShutdown, len(w.d.Groups), hist)
-		}
-		if n := w.listeners(); n > 0 && last != "shutdown" {
-			simrt.Fail("C19|listener-alive-after-shutdown", "%d listener goroutine(s) still alive after Shutdown (history %v)", n, hist)
-		}
-		return
-	}
-	// stable: the daemon is up and a full retry period has passed since the last change
-	if w.d.AvahiUp && w.d.DBusUp && last == "tick" {
-		if n := w.d.LiveBrowsers(); n != 1 {
-			simrt.Fail(fmt.Sprintf("C19|browsers=%d", n), "the daemon is reachable and things have settled but %d service browsers are live instead of 1 (history %v)", n, hist)
-		}
-		if n := w.listeners(); n != 1 {
-			simrt.Fail(fmt.Sprintf("C19|listeners=%d", n), "%d listener goroutines are running instead of 1 (history %v)", n, hist)
-		}
-		gs := w.d.LiveGroups()
-		switch {
-		case w.want == "" && len(gs) > 0:
-			simrt.Fail("C19|stale-announcement", "nothing is announced at the moment (last request was Unannounce) but the daemon serves %d committed entry group(s) with TXT %v (history %v)", len(gs), gs[0].Services, hist)
-		case w.want != "" && len(gs) == 0:
-			simrt.Fail("C19|lost-announcement", "an announcement is active but the daemon serves no entry group after it became reachable again (history %v)", hist)
-		case w.want != "" && len(gs) > 1:
-			simrt.Fail("C19|duplicate-announcement", "%d entry groups are committed at the same time (history %v)", len(gs), hist)
-		case w.want != "":
-			txt := ""
-			if len(gs[0].Services) > 0 {
-				txt = strings.Join(gs[0].Services[0].Txt, ",")
-			}
-			if !strings.Contains(txt, "register="+w.want) {
-				simrt.Fail("C19|outdated-txt", "the committed announcement carries %q but the most recently requested TXT has register=%s (history %v)", txt, w.want, hist)
-			}
-		}
-	}
-}
-
-func c19Build() func(hist []string) hx.GView {
-	return func(hist []string) hx.GView {
-		simrt.ClearTraceHooks()
-		w := &c19world{d: fakeavahi.TheDaemon()}
-		w.d.Up()
-		w.p = mdns.NewAvahiProvider([]int32{fakeavahi.InterfaceUnspec})
-		ok := w.p.Start(true, func(el map[string]string, name, host string, addrs []net.IP, port int, remove bool) {
-			w.resolved = append(w.resolved, fmt.Sprintf("%s:%v", name, remove))
-		})
-		if !ok {
-			simrt.Fail("engine|start", "AvahiProvider.Start failed with a reachable daemon")
-		}
-		simrt.Quiesce()
-		for i, ev := range hist {
-			nres := len(w.resolved)
-			w.apply(ev)
-			if ev == "browse" && i == len(hist)-1 && !w.shutReturned && w.d.AvahiUp && w.d.LiveBrowsers() > 0 {
-				if len(w.resolved) == nres {
-					simrt.Fail("C19|browse-result-lost", "a service resolved while the daemon is reachable did not reach the resolver callback (history %v)", hist)
-				}
-			}
-		}
-		w.invariants(hist)
-		var en []string
-		for _, e := range c19Events {
-			if e == "shutdown" && w.shut {
-				continue
-			}
-			if w.shut && (e == "ann1" || e == "ann2" || e == "unann") {
-				continue
-			}
-			if e == "up" && w.d.AvahiUp || e == "down" && !w.d.AvahiUp {
-				continue
-			}
-			en = append(en, e)
-		}
-		key := fmt.Sprintf("%s|up=%v|want=%s|shut=%v|lb=%d|lg=%d|lis=%d|setups>%v|tm=%d|nb=%d", c19snap.Snap(w.p), w.d.AvahiUp, w.want, w.shutReturned, w.d.LiveBrowsers(), len(w.d.LiveGroups()), w.listeners(),
-			w.shutReturned && w.d.Setups != w.setupsAtShutdown, len(simrt.Timers()), min(w.nBrowse, 2))
-		return hx.GView{Key: key, Enabled: en, Obs: strings.Join(w.d.Log, ",")}
-	}
-}
-
-var c19snap = hx.NewSnapper("AvahiProvider.avServer", "AvahiProvider.avEntryGroup", "AvahiProvider.avBrowser", "AvahiProvider.resolveCB", "AvahiProvider.serviceElements")
-
-// S part: shutdown racing the reconnect loop / browse results / announce
-func c19RaceBody(kind string) func() {
-	return func() {
-		simrt.ClearTraceHooks()
-		w := &c19world{d: fakeavahi.TheDaemon()}
-		w.d.Up()
-		w.p = mdns.NewAvahiProvider([]int32{fakeavahi.InterfaceUnspec})
-		w.p.Start(true, func(el map[string]string, name, host string, addrs []net.IP, port int, remove bool) {})
-		_ = w.p.Announce("svc", 4711, txtOf("false"))
-		w.want = "false"
-		simrt.Quiesce()
-		simrt.Mark()
-		shutDone := false
-		switch kind {
-		case "shutdown-vs-reconnect":
-			w.d.Disconnect()
-			simrt.Go("daemon-back", func() { w.d.Up() })
-			simrt.Go("user-shutdown", func() { w.p.Shutdown(); shutDone = true })
-		case "shutdown-vs-browse":
-			w.apply("browse")
-			svc := w.d.Resolvable[0]
-			w.d.Push(true, svc)
-			w.d.Push(false, svc)
-			simrt.Go("user-shutdown", func() { w.p.Shutdown(); shutDone = true })
-		case "shutdown-in-retry-sleep":
-			w.d.Disconnect()
-			simrt.RunFor(500 * time.Millisecond)
-			simrt.Go("user-shutdown", func() { w.p.Shutdown(); shutDone = true })
-			simrt.Go("daemon-back", func() { w.d.Up() })
-		case "announce-vs-reconnect":
-			w.d.Disconnect()
-			w.d.Up()
-			simrt.Go("user-announce", func() { _ = w.p.Announce("svc", 4711, txtOf("true")) })
-			w.want = "true"
-			shutDone = true
-		case "double-disconnect":
-			w.d.Disconnect()
-			w.d.Up()
-			simrt.RunFor(1100 * time.Millisecond)
-			w.d.Disconnect()
-			w.d.Up()
-			shutDone = true
-		}
-		simrt.RunFor(5 * time.Second)
-		if !shutDone {
-			simrt.Fail("C19|shutdown-blocked", "Shutdown did not return (%s)", kind)
-		}
-		if strings.HasPrefix(kind, "shutdown") {
-			if n := w.d.LiveBrowsers(); n > 0 {
-				simrt.Fail("C19|restarted-after-shutdown", "%d live browser(s) after Shutdown (%s)", n, kind)
-			}
-			if gs := w.d.LiveGroups(); len(gs) > 0 {
-				simrt.Fail("C19|restarted-after-shutdown", "%d committed entry group(s) after Shutdown (%s)", len(gs), kind)
-			}
-			if n := w.listeners(); n > 0 {
-				simrt.Fail("C19|listener-alive-after-shutdown", "%d listener goroutine(s) alive after Shutdown (%s)", n, kind)
-			}
-		} else {
-			if n := w.d.LiveBrowsers(); n != 1 {
-				simrt.Fail(fmt.Sprintf("C19|browsers=%d", n), "%d live browsers after things settled (%s)", n, kind)
-			}
-			gs := w.d.LiveGroups()
-			if len(gs) != 1 {
-				simrt.Fail(fmt.Sprintf("C19|groups=%d", len(gs)), "%d committed entry groups after things settled (%s)", len(gs), kind)
-			} else if !strings.Contains(strings.Join(gs[0].Services[0].Txt, ","), "register="+w.want) {
-				simrt.Fail("C19|outdated-txt", "committed TXT %v, most recently requested register=%s (%s)", gs[0].Services[0].Txt, w.want, kind)
-			}
-		}
-		simrt.Outcome(fmt.Sprintf("lb=%d lg=%d lis=%d", w.d.LiveBrowsers(), len(w.d.LiveGroups()), w.listeners()))
-	}
-}
 
 func c19Main(r *hx.Run) {
 	depth := 5
 	if r.Thorough() {
 		depth = 7
 	}
-	ms := []hx.GModel{{Name: "avahi", Build: c19Build(), MaxDepth: depth, MaxStates: 300000}}
+	ms := []hx.GModel{{Name: "avahi", Build: mdnsscen.Build(), MaxDepth: depth, MaxStates: 300000}}
 	var scens []hx.Scenario
 	pb := 1
 	if r.Thorough() {
 		pb = 2
 	}
 	for _, k := range []string{"shutdown-vs-reconnect", "shutdown-vs-browse", "shutdown-in-retry-sleep", "announce-vs-reconnect", "double-disconnect"} {
-		scens = append(scens, hx.Scenario{Name: "c19:" + k, Body: c19RaceBody(k), Bounds: simrt.B(pb, 0, 0), Cfg: simrt.Config{MaxSteps: 100000, BranchAfterMark: true}})
+		scens = append(scens, hx.Scenario{Name: "c19:" + k, Body: mdnsscen.RaceBody(k), Bounds: simrt.B(pb, 0, 0), Cfg: simrt.Config{MaxSteps: 100000, BranchAfterMark: true}})
 	}
 	if r.Worker {
 		if hx.WorkerMode() == "s" {
